@@ -42,6 +42,7 @@ type Exec struct {
 	useContracts bool // apply callee contracts at call sites (modular); false => inline everything
 	noContractFor map[string]bool
 	callStack []*ssa.Function
+	assumed   map[string]int
 }
 
 type Frame struct {
@@ -210,6 +211,12 @@ func (ex *Exec) content(st *State, o *Obj) Val {
 func (ex *Exec) asTerm(st *State, v Val, t types.Type) *Term {
 	switch x := v.(type) {
 	case *Term:
+		if t != nil && x.Sort != SIface {
+			if _, isI := t.Underlying().(*types.Interface); isI && sortOf(t) == SIface {
+				DeclareUF("box_"+sortIdent(x.Sort), []*Sort{x.Sort}, SIface)
+				return App("box_"+sortIdent(x.Sort), x)
+			}
+		}
 		return x
 	case *SliceV:
 		if isByteSlice(t) || (x.Elem != nil && isByteElem(x.Elem)) {
@@ -342,6 +349,10 @@ func (ex *Exec) load(st *State, p *PtrV) Val {
 	}
 	for _, e := range p.Path {
 		if e.Index != nil {
+			if t.Sort == SBytes {
+				t = byteAt(t, e.Index)
+				continue
+			}
 			t = Select(t, e.Index)
 		} else {
 			t = Sel(t.Sort.DT, 0, e.Field, t)
@@ -356,6 +367,9 @@ func updatePath(t *Term, path []PathElem, v *Term) *Term {
 	}
 	e := path[0]
 	if e.Index != nil {
+		if t.Sort == SBytes {
+			return byteSet(t, e.Index, v)
+		}
 		return Store(t, e.Index, updatePath(Select(t, e.Index), path[1:], v))
 	}
 	d := t.Sort.DT
@@ -369,6 +383,41 @@ func updatePath(t *Term, path []PathElem, v *Term) *Term {
 		}
 	}
 	return Cons(d, 0, args...)
+}
+
+// byteAt / byteSet: element access on byte strings with fixed-width layout.
+func byteAt(b, i *Term) *Term {
+	if i.Op == "int" && i.Int.IsInt64() {
+		pos := int64(0)
+		for _, s := range segsOf(b) {
+			n, ok := segFixedLen(s)
+			if !ok {
+				break
+			}
+			if i.Int.Int64() < pos+int64(n) {
+				if s.Op == "lit" {
+					return IntLit(int64(s.Str[i.Int.Int64()-pos]))
+				}
+				if s.Op == "b1" {
+					return s.Args[0]
+				}
+				break
+			}
+			pos += int64(n)
+		}
+	}
+	return App("bat", b, i)
+}
+
+func byteSet(b, i, v *Term) *Term {
+	if i.Op == "int" && i.Int.IsInt64() {
+		if n, ok := fixedTotalLen(b); ok && i.Int.Int64() < int64(n) {
+			k := i.Int.Int64()
+			return Cat(bslice(b, IntLit(0), IntLit(k)), B1(v), bslice(b, IntLit(k+1), IntLit(int64(n))))
+		}
+	}
+	DeclareUF("bset", []*Sort{SBytes, SInt, SInt}, SBytes)
+	return App("bset", b, i, v)
 }
 
 func (ex *Exec) store(st *State, p *PtrV, v Val, vt types.Type) {
@@ -475,6 +524,9 @@ func (ex *Exec) typeInvariant(st *State, v *Term, t types.Type, depth int) {
 			}
 		}
 	case *types.Struct:
+		if n, ok := t.(*types.Named); ok && strings.HasSuffix(n.Obj().Name(), "Keeper") {
+			return
+		}
 		if v.Sort.Kind == KDT {
 			for i := 0; i < u.NumFields(); i++ {
 				ft := u.Field(i).Type()
@@ -618,7 +670,13 @@ func (ex *Exec) step(fr *Frame, in ssa.Instruction, st *State) {
 	case *ssa.DebugRef:
 	case *ssa.Alloc:
 		et := x.Type().(*types.Pointer).Elem()
-		o := st.NewObj(x.Comment, et, ex.zeroVal(et))
+		var o *Obj
+		if at, ok := et.Underlying().(*types.Array); ok && isByteElem(at.Elem()) && at.Len() <= 256 {
+			// byte arrays are kept as Bytes terms
+			o = st.NewObj(x.Comment, et, Lit(strings.Repeat("\x00", int(at.Len()))))
+		} else {
+			o = st.NewObj(x.Comment, et, ex.zeroVal(et))
+		}
 		fr.env[x] = &PtrV{Obj: o}
 	case *ssa.Store:
 		addr := ex.val(fr, x.Addr, st)
@@ -988,6 +1046,12 @@ func (ex *Exec) sliceOp(fr *Frame, x *ssa.Slice, st *State) Val {
 		}
 		if len(p.Path) != 0 {
 			ex.unsupp("slice of nested array")
+		}
+		if c, ok := ex.content(st, p.Obj).(*Term); ok && c.Sort == SBytes {
+			if lo.Op == "int" && lo.Int.Sign() == 0 && hi.Op == "int" && hi.Int.Int64() == at.Len() {
+				return &ByteSlV{Obj: p.Obj}
+			}
+			return bslice(c, lo, hi)
 		}
 		return &SliceV{Obj: p.Obj, Off: lo, Len: Sub(hi, lo), Elem: at.Elem()}
 	case *types.Basic: // string
